@@ -237,7 +237,8 @@ class SimSocket:
     # -- readiness for select
     def _readable(self):
         if self.closed:
-            return True
+            # closing a descriptor in another thread does not wake a select() that is already waiting on it (Linux)
+            return False
         if self.listener is not None:
             return bool(self.listener.backlog)
         if self.ep is None:
@@ -269,10 +270,11 @@ def sim_select(rlist, wlist, xlist, timeout=None):
     s.yield_point()
     end = None if timeout is None else s.now + timeout
     net = current_net()
+    for sock in list(rlist) + list(wlist):
+        if getattr(sock, "closed", False):
+            # select() called on an already closed socket: fileno() is -1
+            raise ValueError("file descriptor cannot be a negative integer (-1)")
     while True:
-        for sock in list(rlist) + list(wlist):
-            if getattr(sock, "closed", False) and sock.listener is None and sock.ep is None:
-                raise OSError(errno.EBADF, "bad file descriptor")
         r = [x for x in rlist if x._readable()]
         w = [x for x in wlist if x._writable()]
         if r or w:
